@@ -1580,10 +1580,19 @@ impl Config {
         // Validate TLS!
         if let Some(tls_certificate) = self.general.tls_certificate.clone() {
             match load_certs(Path::new(&tls_certificate)) {
+                Ok(certs) if certs.is_empty() => {
+                    error!("tls_certificate contains no certificate");
+                    return Err(Error::BadConfig);
+                }
+
                 Ok(_) => {
                     // Cert is okay, but what about the private key?
                     match self.general.tls_private_key.clone() {
                         Some(tls_private_key) => match load_keys(Path::new(&tls_private_key)) {
+                            Ok(keys) if keys.is_empty() => {
+                                error!("tls_private_key contains no private key");
+                                return Err(Error::BadConfig);
+                            }
                             Ok(_) => (),
                             Err(err) => {
                                 error!("tls_private_key is incorrectly configured: {:?}", err);
